@@ -71,3 +71,38 @@ pub fn nodes_search(_v: &serde_json::Value) -> i32 {
     println!("no failing input among {} statements", table.len());
     0
 }
+
+pub fn genkill_search(_v: &serde_json::Value) -> i32 {
+    use riscv_analysis::analysis::{AvailableValue, HasGenKillInfo, HasGenValueInfo, MemoryLocation};
+    let one = |st: &str| -> Option<ParserNode> {
+        let (nodes, errors) = RVStringParser::parse_from_text(&format!("{st}\nmain:\n"));
+        if !errors.is_empty() { return None; }
+        nodes.into_iter().find(|x| x.is_instruction())
+    };
+    // statement -> expected constant generated for rd (None = no constant may be claimed)
+    let consts: [(&str, Option<i32>); 14] = [
+        ("add t0, x0, x0", Some(0)), ("sub t0, x0, x0", Some(0)), ("div t0, x0, x0", Some(-1)), ("divu t0, x0, x0", Some(-1)),
+        ("rem t0, x0, x0", Some(0)), ("mul t0, x0, x0", Some(0)), ("addi t0, x0, 5", Some(5)), ("li t0, -3", Some(-3)),
+        ("andi t0, x0, 7", Some(0)), ("ori t0, x0, 7", Some(7)), ("xori t0, x0, 7", Some(7)), ("lui t0, 1", Some(4096)),
+        ("add t0, t1, x0", None), ("addi x0, x0, 5", None),
+    ];
+    for (st, want) in consts {
+        let Some(n) = one(st) else { println!("witness: {st:?} does not parse"); return 1; };
+        let got = match n.gen_reg_value() { Some((_, AvailableValue::Constant(c))) => Some(c), _ => None };
+        let bad = match (want, got) { (Some(w), Some(g)) => w != g, (None, Some(_)) => true, _ => false };
+        if bad { println!("witness: after `{st}` the analyzer generates the constant {got:?}; the machine computes {want:?}"); return 1; }
+    }
+    for (st, tracked) in [("sw t0, 4(sp)", true), ("sb t0, 4(sp)", false), ("sh t0, 4(sp)", false), ("sw t0, 4(t1)", false)] {
+        let Some(n) = one(st) else { println!("witness: {st:?} does not parse"); return 1; };
+        let got = matches!(n.gen_memory_value(), Some((MemoryLocation::StackOffset(4), AvailableValue::RegisterWithScalar(_, 0))));
+        if got != tracked { println!("witness: `{st}`: stack-slot fact generated = {got}, expected {tracked}"); return 1; }
+    }
+    for (st, want) in [("add t0, t1, t2", vec![5u8]), ("sw t0, 4(sp)", vec![]), ("beq t0, t1, main", vec![]), ("lw a0, 0(sp)", vec![10]),
+                       ("add x0, t1, t2", vec![]), ("jal t0, main", vec![5])] {
+        let Some(n) = one(st) else { println!("witness: {st:?} does not parse"); return 1; };
+        let got: Vec<u8> = n.kill_reg().iter().map(|r| r.to_num()).collect();
+        if got != want { println!("witness: `{st}`: kill set {got:?}, expected {want:?}"); return 1; }
+    }
+    println!("no failing input among the gen/kill sample statements");
+    0
+}
